@@ -247,6 +247,161 @@ theorem c09_int_arg_captured (fx : Fix) (m : Machine) (sp : Spec) (m0 : Mem)
 
 example : (⟨3, .hex, 4, 0, 0, []⟩ : Spec).ty = 0 ∧ (⟨3, .hex, 4, 0, 0, []⟩ : Spec).isStr = false := by decide
 
+/-! ### the writer's and the reader's spec list (option sources)
+
+The writer (libmcount) builds a function's list from UFTRACE_TRIGGER, then UFTRACE_ARGUMENT, then
+UFTRACE_RETVAL; the readers (replay, dump, script) build it from the `argspec:` / `retspec:` lines that
+`extract_trigger_args` stored in the info file.  A payload is laid out by one list and decoded by the
+other.  `T`, `A`, `R` are arbitrary sequences of option items (any number of -T / -A / -R options, any
+patterns — plain names, regex, glob, overlapping —, duplicate and non-increasing indices, items without
+specs that fall back to the auto-args table / DWARF `auto`), `f` any function.
+`xf` selects the repaired info transformation (findings C09-TRIGRET, C09-TRIGAUTO, C09-OLDFMT). -/
+
+/-- For every sequence of option items: when the old-format pass of setup_fstack_args does not run, the
+    reader's list and the writer's list of every function have the same argument entries and the same
+    return-value entries — same order, same format / size / location, same `exact` marks — hence the
+    same payload layout. -/
+theorem c09_spec_lists_agree (auto : Nat → Bool → List Spec) (hauto : AutoOk auto) (xf : XFix)
+    (hxa : xf.auto = true) (hxr : xf.ret = true) (T A R : List Item)
+    (hT : ItemsOk T) (hA : ItemsOk A) (hR : ItemsOk R) (f : Nat)
+    (hold : oldPass xf (infoArgs xf T A) (infoRets xf T R) = false) (b : Bool) :
+    part b (readerList auto xf T A R f) = part b (writerList auto T A R f) ∧
+    layout b (readerList auto xf T A R f) = layout b (writerList auto T A R f) := by
+  have h : part b (readerList auto xf T A R f) = part b (writerList auto T A R f) := by
+    unfold readerList writerList
+    rw [part_build b _ (readerAdds_ok auto hauto xf T A R hT hA hR f),
+      part_build b _ (writerAdds_ok auto hauto T A R hT hA hR f)]
+    cases b
+    · rw [part_false_filter, part_false_filter, adds_args_agree auto hauto xf hxa T A R f]
+    · rw [part_true_filter, part_true_filter, adds_rets_agree auto hauto xf hxa hxr T A R f hold]
+  exact ⟨h, by rw [layout_eq_part, layout_eq_part, h]⟩
+
+example : AutoOk (fun f b => if f = 1 ∧ b = false then [⟨1, .str, 8, 0, 0, []⟩] else []) := by
+  intro f b sp h
+  simp only at h
+  split at h
+  · rename_i hc
+    simp at h; subst h
+    exact ⟨by rw [hc.2]; rfl, fun hr => rfl⟩
+  · cases h
+
+example : ItemsOk [{ fns := [1, 2], exact := false, specs := [⟨2, .sint, 4, 0, 0, []⟩, ⟨0, .str, 8, 0, 0, []⟩] }] ∧
+    oldPass XFix.all (infoArgs XFix.all [{ fns := [1, 2], exact := false, specs := [⟨2, .sint, 4, 0, 0, []⟩, ⟨0, .str, 8, 0, 0, []⟩] }]
+        [{ fns := [1], exact := true, specs := [⟨1, .hex, 8, 0, 0, []⟩] }])
+      (infoRets XFix.all [{ fns := [1, 2], exact := false, specs := [⟨2, .sint, 4, 0, 0, []⟩, ⟨0, .str, 8, 0, 0, []⟩] }] []) = false := by
+  refine ⟨?_, by decide⟩
+  intro it hit sp hsp
+  simp at hit; subst hit
+  simp at hsp
+  rcases hsp with rfl | rfl <;> intro _ <;> rfl
+
+/-- Arguments never depend on how return values were asked for: with `auto-args` stored as the writer
+    uses it, the argument entries (hence the layout of every ENTRY payload) agree for every sequence of
+    option items — whether or not the old-format pass runs, with or without the other two repairs. -/
+theorem c09_spec_lists_agree_args (auto : Nat → Bool → List Spec) (hauto : AutoOk auto) (xf : XFix)
+    (hxa : xf.auto = true) (T A R : List Item) (hT : ItemsOk T) (hA : ItemsOk A) (hR : ItemsOk R) (f : Nat) :
+    part false (readerList auto xf T A R f) = part false (writerList auto T A R f) ∧
+    layout false (readerList auto xf T A R f) = layout false (writerList auto T A R f) := by
+  have h : part false (readerList auto xf T A R f) = part false (writerList auto T A R f) := by
+    unfold readerList writerList
+    rw [part_build false _ (readerAdds_ok auto hauto xf T A R hT hA hR f),
+      part_build false _ (writerAdds_ok auto hauto T A R hT hA hR f),
+      part_false_filter, part_false_filter, adds_args_agree auto hauto xf hxa T A R f]
+  exact ⟨h, by rw [layout_eq_part, layout_eq_part, h]⟩
+
+/-- With all three repairs the old-format pass (kept for data recorded before `retspec:` existed) can only
+    run when the info file has no `retspec:` line, and then the writer's list has no return-value entry:
+    no EXIT record carries a payload that the extra entries of the reader could misread. -/
+theorem c09_old_format_pass_harmless (auto : Nat → Bool → List Spec) (hauto : AutoOk auto) (xf : XFix)
+    (hxa : xf.auto = true) (hxr : xf.ret = true) (hxc : xf.compat = true) (T A R : List Item)
+    (hT : ItemsOk T) (hA : ItemsOk A) (hR : ItemsOk R) (f : Nat)
+    (hold : oldPass xf (infoArgs xf T A) (infoRets xf T R) = true) :
+    layout true (writerList auto T A R f) = [] := by
+  rw [layout_eq_part]
+  unfold writerList
+  rw [part_build true _ (writerAdds_ok auto hauto T A R hT hA hR f), part_true_filter,
+    adds_rets_empty auto hauto xf hxa hxr hxc T A R f hold]
+  rfl
+
+example : oldPass XFix.all (infoArgs XFix.all [] [{ fns := [1], exact := true, specs := [⟨1, .auto, 8, 0, 0, []⟩, ⟨0, .str, 8, 0, 0, []⟩] }])
+    (infoRets XFix.all [] []) = true := by decide
+
+/-- C09-TRIGRET, the code as it is: `-T f@retval/s` is stored as `f@retval`.  The writer records the
+    string (2-byte length + bytes), the reader decodes 8 bytes as an integer and — for a string longer
+    than 6 bytes — resumes reading in the middle of the payload.  With the repair the lists agree. -/
+theorem c09_prefix_trigger_retval_witness :
+    layout true (writerList (fun _ _ => []) [{ fns := [1], exact := true, specs := [⟨0, .str, 8, 0, 0, []⟩] }] [] [] 1)
+      = [⟨0, .str, 8, 0, 0, []⟩] ∧
+    layout true (readerList (fun _ _ => []) XFix.none [{ fns := [1], exact := true, specs := [⟨0, .str, 8, 0, 0, []⟩] }] [] [] 1)
+      = [⟨0, .auto, 8, 0, 0, []⟩] ∧
+    layout true (readerList (fun _ _ => []) XFix.all [{ fns := [1], exact := true, specs := [⟨0, .str, 8, 0, 0, []⟩] }] [] [] 1)
+      = [⟨0, .str, 8, 0, 0, []⟩] := by
+  refine ⟨by decide, by decide, by decide⟩
+
+/-- C09-TRIGAUTO, the code as it is: `-T f@arg1/x64,auto-args` for a function the auto-args table knows
+    (here as `f(p, u, s)`).  The writer ignores `auto-args` next to an explicit spec and records one
+    8-byte value; the info file gets `f@arg1/x64;f`, and the reader decodes pointer, integer, string. -/
+theorem c09_prefix_trigger_auto_witness :
+    let auto : Nat → Bool → List Spec := fun f b =>
+      if f = 1 ∧ b = false then [⟨1, .ptr, 8, 0, 0, []⟩, ⟨2, .uint, 8, 0, 0, []⟩, ⟨3, .str, 8, 0, 0, []⟩] else []
+    let T : List Item := [{ fns := [1], exact := true, specs := [⟨1, .hex, 8, 0, 0, []⟩], autoArgs := true }]
+    layout false (writerList auto T [] [] 1) = [⟨1, .hex, 8, 0, 0, []⟩] ∧
+    layout false (readerList auto XFix.none T [] [] 1)
+      = [⟨1, .ptr, 8, 0, 0, []⟩, ⟨2, .uint, 8, 0, 0, []⟩, ⟨3, .str, 8, 0, 0, []⟩] ∧
+    layout false (readerList auto XFix.all T [] [] 1) = [⟨1, .hex, 8, 0, 0, []⟩] := by
+  refine ⟨by decide, by decide, by decide⟩
+
+/-- C09-OLDFMT, the code as it is: `-A f@arg1,retval/s -R f@retval/i32`.  -A does not accept a retval
+    action, so the writer records a 4-byte integer; the reader's old-format pass finds "retval" in the
+    argspec line, applies that line once more as a return-value string and overrides the -R spec. -/
+theorem c09_prefix_oldfmt_witness :
+    let A : List Item := [{ fns := [1], exact := true, specs := [⟨1, .auto, 8, 0, 0, []⟩, ⟨0, .str, 8, 0, 0, []⟩] }]
+    let R : List Item := [{ fns := [1], exact := true, specs := [⟨0, .sint, 4, 0, 0, []⟩] }]
+    layout true (writerList (fun _ _ => []) [] A R 1) = [⟨0, .sint, 4, 0, 0, []⟩] ∧
+    layout true (readerList (fun _ _ => []) XFix.none [] A R 1) = [⟨0, .str, 8, 0, 0, []⟩] ∧
+    layout true (readerList (fun _ _ => []) XFix.all [] A R 1) = [⟨0, .sint, 4, 0, 0, []⟩] := by
+  refine ⟨by decide, by decide, by decide⟩
+
+/-- What the order of the sources means (and why an info file that lists -A before the trigger specs
+    breaks the layout): `-T f@arg2/i32 -A f@arg3/x64` — the writer's list is [arg2, arg3]; a reader that
+    applied -A first would get [arg3, arg2]. -/
+theorem c09_source_order_matters :
+    let T : List Item := [{ fns := [1], exact := true, specs := [⟨2, .sint, 4, 0, 0, []⟩] }]
+    let A : List Item := [{ fns := [1], exact := true, specs := [⟨3, .hex, 8, 0, 0, []⟩] }]
+    layout false (writerList (fun _ _ => []) T A [] 1) = [⟨2, .sint, 4, 0, 0, []⟩, ⟨3, .hex, 8, 0, 0, []⟩] ∧
+    layout false (readerList (fun _ _ => []) XFix.all T A [] 1) = [⟨2, .sint, 4, 0, 0, []⟩, ⟨3, .hex, 8, 0, 0, []⟩] ∧
+    layout false (build (addsOf (fun _ _ => []) .arg (A ++ extractArgs XFix.all T) 1))
+      = [⟨3, .hex, 8, 0, 0, []⟩, ⟨2, .sint, 4, 0, 0, []⟩] := by
+  refine ⟨by decide, by decide, by decide⟩
+
+/-! ### `uftrace dump` prints the number that was recorded (finding C09-DUMPF80) -/
+
+/-- Repaired raw dump: for every integer / character / floating-point spec of any size — a 10-byte
+    `long double` included — the number printed is the `size` recorded bytes (the same number replay decodes,
+    `decodeVals`), for a value packed by the writer exactly the value's low `size` bytes, and nothing is
+    stored beyond the 8-byte temporary. -/
+theorem c09_dump_raw_exact (sp : Spec) (hs : sp.isStr = false) (hc : sp.fmt ≠ .chr) (ht : sp.fmt ≠ .strct)
+    (v : Nat) (rest : List Byte) :
+    (dumpRaw true sp.size (leBytes (align4 sp.size) v ++ rest)).1 = v % 256 ^ sp.size ∧
+    decodeVals [sp] (leBytes (align4 sp.size) v ++ rest) = [.int (dumpRaw true sp.size (leBytes (align4 sp.size) v ++ rest)).1] ∧
+    (dumpRaw true sp.size (leBytes (align4 sp.size) v ++ rest)).2 ≤ 8 := by
+  obtain ⟨h1, h2⟩ := dumpRaw_fixed sp.size (leBytes (align4 sp.size) v ++ rest)
+  have hle : sp.size ≤ align4 sp.size := by unfold align4; omega
+  have htake : (leBytes (align4 sp.size) v ++ rest).take sp.size = leBytes sp.size v := by
+    rw [List.take_append_of_le_length (by simp; exact hle), leBytes_take _ _ _ hle]
+  refine ⟨by rw [h1, htake, ofLe_leBytes], ?_, h2⟩
+  rw [h1]
+  simp [decodeVals, hs, hc, ht]
+
+example : (⟨1, .flt, 10, 1, 0, []⟩ : Spec).isStr = false ∧ (⟨1, .flt, 10, 1, 0, []⟩ : Spec).fmt ≠ .chr := by decide
+
+/-- C09-DUMPF80, the code as it is: a `long double` argument 1.25L (0x3fff a000000000000000) is printed as
+    0x0000a000000000000000 — sign and exponent are gone — and memcpy stores 10 bytes into the 8-byte `val`. -/
+theorem c09_prefix_dump_f80_witness :
+    dumpRaw false 10 (leBytes 12 0x3fffa000000000000000) = (0xa000000000000000, 10) ∧
+    dumpRaw true 10 (leBytes 12 0x3fffa000000000000000) = (0x3fffa000000000000000, 0) := by
+  refine ⟨by decide, by decide⟩
+
 /-! ### unreadable pointers -/
 
 /-- A non-NULL string pointer whose first byte lies in no mapped readable region `[start, end)` —
